@@ -15,19 +15,19 @@ def GoodCtx (p : Proc) : Prop :=
     a counter that is not smaller -/
 @[reducible] def Ext (p q : Proc) : Prop :=
   ∀ (g : Nat) (gen : Gen), p.gens[g]? = some gen →
-    ∃ gen' : Gen, q.gens[g]? = some gen' ∧ gen'.kind = gen.kind ∧ gen'.cfg = gen.cfg ∧ gen.counter ≤ gen'.counter
+    ∃ gen' : Gen, q.gens[g]? = some gen' ∧ gen'.kind = gen.kind ∧ gen'.cfg = gen.cfg ∧ gen'.start = gen.start ∧ gen.counter ≤ gen'.counter
 
-theorem Ext.refl (p : Proc) : Ext p p := fun _ gen h => ⟨gen, h, rfl, rfl, Nat.le_refl _⟩
+theorem Ext.refl (p : Proc) : Ext p p := fun _ gen h => ⟨gen, h, rfl, rfl, rfl, Nat.le_refl _⟩
 
 theorem Ext.trans {p q r : Proc} (h1 : Ext p q) (h2 : Ext q r) : Ext p r := by
   intro g gen h
-  obtain ⟨gen', hq, k1, c1, n1⟩ := h1 g gen h
-  obtain ⟨gen'', hr, k2, c2, n2⟩ := h2 g gen' hq
-  exact ⟨gen'', hr, k2.trans k1, c2.trans c1, Nat.le_trans n1 n2⟩
+  obtain ⟨gen', hq, k1, c1, s1, n1⟩ := h1 g gen h
+  obtain ⟨gen'', hr, k2, c2, s2, n2⟩ := h2 g gen' hq
+  exact ⟨gen'', hr, k2.trans k1, c2.trans c1, s2.trans s1, Nat.le_trans n1 n2⟩
 
 theorem ext_append (p : Proc) (x : Gen) (n : Nat) : Ext p { nextCtx := n, gens := p.gens ++ [x] } := by
   intro g gen h
-  refine ⟨gen, ?_, rfl, rfl, Nat.le_refl _⟩
+  refine ⟨gen, ?_, rfl, rfl, rfl, Nat.le_refl _⟩
   have hlt : g < p.gens.length := by
     rcases Nat.lt_or_ge g p.gens.length with h' | h'
     · exact h'
@@ -37,7 +37,7 @@ theorem ext_append (p : Proc) (x : Gen) (n : Nat) : Ext p { nextCtx := n, gens :
   exact h
 
 theorem ext_same_gens (p : Proc) (n : Nat) : Ext p { p with nextCtx := n } :=
-  fun _ gen h => ⟨gen, h, rfl, rfl, Nat.le_refl _⟩
+  fun _ gen h => ⟨gen, h, rfl, rfl, rfl, Nat.le_refl _⟩
 
 theorem ext_set (p : Proc) (i : Nat) (g0 : Gen) (h0 : p.gens[i]? = some g0) :
     Ext p { p with gens := p.gens.set i { g0 with counter := g0.counter + 1 } } := by
@@ -51,9 +51,9 @@ theorem ext_set (p : Proc) (i : Nat) (g0 : Gen) (h0 : p.gens[i]? = some g0) :
       rcases Nat.lt_or_ge i p.gens.length with h' | h'
       · exact h'
       · rw [List.getElem?_eq_none h'] at h0; cases h0
-    refine ⟨{ g0 with counter := g0.counter + 1 }, ?_, rfl, rfl, Nat.le_succ _⟩
+    refine ⟨{ g0 with counter := g0.counter + 1 }, ?_, rfl, rfl, rfl, Nat.le_succ _⟩
     rw [List.getElem?_set_self hlt]
-  · refine ⟨gen, ?_, rfl, rfl, Nat.le_refl _⟩
+  · refine ⟨gen, ?_, rfl, rfl, rfl, Nat.le_refl _⟩
     rw [List.getElem?_set_ne e]
     exact h
 
@@ -61,6 +61,7 @@ theorem step_ext (lg : Nat → Nat) (mask : Nat → Nat → Nat) (p : Proc) (op 
     Ext p (step lg mask p op).1 := by
   cases op with
   | newNumeric parts pidParts r => exact ext_append p _ _
+  | restore sv pidParts => exact ext_append p _ _
   | newAlpha parts pidParts alphabet mc r =>
     simp only [step]
     split
@@ -140,6 +141,7 @@ theorem step_goodCtx (lg : Nat → Nat) (mask : Nat → Nat → Nat) (p : Proc) 
     GoodCtx (step lg mask p op).1 := by
   cases op with
   | newNumeric parts pidParts r => exact goodCtx_append p _ rfl h
+  | restore sv pidParts => exact goodCtx_append p _ rfl h
   | newAlpha parts pidParts alphabet mc r =>
     simp only [step]
     split
@@ -198,6 +200,7 @@ theorem step_value (lg : Nat → Nat) (mask : Nat → Nat → Nat) (p : Proc) (o
       ∃ gen', (step lg mask p op).1.gens[g]? = some gen' ∧ gen'.counter = i + 1 := by
   cases op with
   | newNumeric parts pidParts r => simp [step] at h
+  | restore sv pidParts => simp [step] at h
   | newAlpha parts pidParts alphabet mc r =>
     simp only [step] at h
     split at h <;> simp at h
@@ -233,7 +236,7 @@ theorem run_value_ge (lg : Nat → Nat) (mask : Nat → Nat → Nat) (ops : List
       rw [hg] at h0
       cases h0
       omega
-    · obtain ⟨gen', hq, _, _, hn⟩ := step_ext lg mask p op g gen hg
+    · obtain ⟨gen', hq, _, _, _, hn⟩ := step_ext lg mask p op g gen hg
       have := ih _ h gen' hq
       omega
 
@@ -241,17 +244,19 @@ theorem run_value_ge (lg : Nat → Nat) (mask : Nat → Nat → Nat) (ops : List
 theorem run_value_sound (lg : Nat → Nat) (mask : Nat → Nat → Nat) (ops : List Op) (p : Proc) (g i : Nat) (v : Val)
     (h : Out.value g i v ∈ (run lg mask p ops).2) :
     ∃ gen, (run lg mask p ops).1.gens[g]? = some gen ∧
-      genValue lg mask { kind := gen.kind, cfg := gen.cfg, counter := i } = .ok v := by
+      genValue lg mask { gen with counter := i } = .ok v := by
   induction ops generalizing p with
   | nil => simp [run] at h
   | cons op ops ih =>
     simp only [run, List.mem_cons] at h ⊢
     rcases h with h | h
     · obtain ⟨gen0, h0, hc, hv, gen1, h1, _⟩ := step_value lg mask p op g i v h.symm
-      obtain ⟨gen1', e1, k1, c1, _⟩ := step_ext lg mask p op g gen0 h0
-      obtain ⟨gen2, e2, k2, c2, _⟩ := run_ext lg mask ops _ g gen1' e1
+      obtain ⟨gen1', e1, k1, c1, s1, _⟩ := step_ext lg mask p op g gen0 h0
+      obtain ⟨gen2, e2, k2, c2, s2, _⟩ := run_ext lg mask ops _ g gen1' e1
       refine ⟨gen2, e2, ?_⟩
-      rw [k2, k1, c2, c1, ← hc]
+      have e : ({ gen2 with counter := i } : Gen) = gen0 := by
+        cases gen0; cases gen2; simp_all
+      rw [e]
       exact hv
     · exact ih _ h
 
